@@ -14,55 +14,65 @@ Theorem C12_step_equals_fresh : forall n cs stored fr,
 Proof. exact step_equals_fresh. Qed.
 Print Assumptions C12_step_equals_fresh.
 
-(* exhaustive over the finite domain (13 element tables x 43 columns = 559 pairs, [domain]): a ConstControl on net[e][v]
-   is sound exactly on G12a = not (line with a power-flow relevant column) and not (trafo/trafo3w in_service) *)
-Theorem C12_recycle_sound_partial : forall e v,
-  In (e, v) domain -> (sound (CConst false e v) = true <-> G12a e v = true).
-Proof. exact const_sound_iff. Qed.
-Print Assumptions C12_recycle_sound_partial.
+(* exhaustive over the finite domain (13 element tables x 43 columns = 559 pairs, [domain]): every ConstControl on
+   net[e][v], recyclable or not, is sound *)
+Theorem C12_recycle_sound : forall u e v, In (e, v) domain -> sound (CConst u e v) = true.
+Proof. exact const_sound_all. Qed.
+Print Assumptions C12_recycle_sound.
 
 Theorem C12_tap_controller_sound : forall u e, sound (CTap u e) = true.
 Proof. exact tap_sound. Qed.
 Print Assumptions C12_tap_controller_sound.
 
-(* the full statement is false of the faithful model: ConstControl("line","length_km") is recycled under the flag "trafo",
-   which rebuilds transformers only; from the second time step on the line rows and Ybus are stale *)
-Theorem C12_recycle_sound_refuted :
-  exists cs n, ~ Forall (fun fr' => solve_is_fresh fr' = true) (run_steps n cs false all_fresh).
-Proof. exact recycle_sound_refuted. Qed.
-Print Assumptions C12_recycle_sound_refuted.
+(* the full statement: any controller set over the domain (ConstControl on any pair, tap controllers, other classes), any
+   number of time steps: every step solves with fresh parts *)
+Theorem C12_time_series_equals_fresh : forall n cs stored fr,
+  Forall in_domain cs -> fresh fr ->
+  Forall (fun fr' => solve_is_fresh fr' = true) (run_steps n cs stored fr).
+Proof. exact step_equals_fresh_full. Qed.
+Print Assumptions C12_time_series_equals_fresh.
 
-(* OutputWriter, lists of any length: for every request list admitted by the batch-eligibility test, run_timeseries
-   records everything (does not raise) iff G12b: every variable is a key of its table's batch dict and no table other than
-   res_trafo3w is requested twice *)
-Theorem C12_batch_reader_total_partial : forall dc ft l b,
-  eligible dc ft l = Some b -> (records_all dc ft l <-> G12b b = true).
-Proof. exact writer_total_iff. Qed.
-Print Assumptions C12_batch_reader_total_partial.
+(* the rule before "fix: ConstControl only claims the recycle flag trafo for transformer parameters" was sound exactly
+   on G12a and unsound at (line, length_km): regression witness *)
+Theorem C12_recycle_old_partial : forall e v,
+  In (e, v) domain -> (sound_old (CConst false e v) = true <-> G12a e v = true).
+Proof. exact const_sound_old_iff. Qed.
+Print Assumptions C12_recycle_old_partial.
 
-Theorem C12_not_eligible_records_all : forall dc ft l, eligible dc ft l = None -> records_all dc ft l.
-Proof. exact not_eligible_records. Qed.
-Print Assumptions C12_not_eligible_records_all.
+Theorem C12_recycle_old_refuted : sound_old (CConst false "line" "length_km") = false /\ In ("line", "length_km") domain.
+Proof. exact recycle_old_refuted. Qed.
+Print Assumptions C12_recycle_old_refuted.
 
-(* refuted: OutputWriter(log_variables=[("res_line","p_from_mw")]) -> KeyError *)
-Theorem C12_batch_reader_total_refuted :
-  exists l, eligible false false l <> None /\ ~ records_all false false l.
-Proof. exact batch_reader_refuted_key. Qed.
-Print Assumptions C12_batch_reader_total_refuted.
+(* OutputWriter, request lists of any length, any controller flags: run_timeseries records every requested variable
+   instead of failing on it *)
+Theorem C12_batch_reader_total : forall dc ft l, records_all dc ft l.
+Proof. exact writer_total. Qed.
+Print Assumptions C12_batch_reader_total.
 
-(* refuted even when every variable is known to the reader: two variables of one table -> ValueError *)
-Theorem C12_batch_reader_same_table_refuted :
-  exists l, eligible false false l <> None /\
-            (forall o, In o l -> mems (l_var o) (keys (l_table o)) = true) /\ ~ records_all false false l.
-Proof. exact batch_reader_refuted_twice. Qed.
-Print Assumptions C12_batch_reader_same_table_refuted.
+(* before the two writer repairs: total exactly on G12b, refuted by [(res_line,p_from_mw)] (KeyError) and by two variables
+   of one table (ValueError) *)
+Theorem C12_batch_reader_old_partial : forall dc ft l b,
+  eligible_old dc ft l = Some b -> (records_all_old dc ft l <-> G12b b = true).
+Proof. exact writer_old_total_iff. Qed.
+Print Assumptions C12_batch_reader_old_partial.
 
-(* non-vacuity: a sound non-trivial controller set that really recycles, and an eligible list that satisfies G12b *)
+Theorem C12_batch_reader_old_refuted :
+  exists l, eligible_old false false l <> None /\ ~ records_all_old false false l.
+Proof. exact batch_old_refuted_key. Qed.
+Print Assumptions C12_batch_reader_old_refuted.
+
+Theorem C12_batch_reader_old_same_table_refuted :
+  exists l, eligible_old false false l <> None /\
+            (forall o, In o l -> mems (l_var o) (keys (l_table o)) = true) /\ ~ records_all_old false false l.
+Proof. exact batch_old_refuted_twice. Qed.
+Print Assumptions C12_batch_reader_old_same_table_refuted.
+
+(* non-vacuity: a non-trivial controller set that really recycles, and an eligible list that is read in batch *)
 Example C12_nonvacuous :
-  Forall (fun c => sound c = true) [CConst false "load" "p_mw"; CConst false "gen" "vm_pu"; CTap false "trafo"] /\
+  Forall in_domain [CConst false "load" "p_mw"; CConst false "gen" "vm_pu"; CTap false "trafo"] /\
   recyclability [CConst false "load" "p_mw"; CConst false "gen" "vm_pu"; CTap false "trafo"] <> None /\
-  exists b, eligible false false [{| l_table := "res_bus"; l_var := "vm_pu"; l_long := false |};
-                                  {| l_table := "res_line"; l_var := "loading_percent"; l_long := false |}] = Some b /\ G12b b = true.
+  writer false false [{| l_table := "res_bus"; l_var := "vm_pu"; l_long := false |};
+                      {| l_table := "res_bus"; l_var := "va_degree"; l_long := false |}] = WBatchOk.
 Proof.
-  split; [repeat constructor|]. split; [vm_compute; discriminate|]. eexists. split; [vm_compute; reflexivity | reflexivity].
+  split; [repeat constructor; vm_compute; tauto|]. split; [vm_compute; discriminate | reflexivity].
 Qed.
